@@ -1,20 +1,43 @@
 import LunaVerif.Core.Proto
 import LunaVerif.Model.Usb3.SSStreamIn
+import LunaVerif.Model.Usb3.SSInLoop
 open LunaVerif LunaVerif.Proto LunaVerif.SSStreamIn
 
 /-
-config line `# mps ep aw` : SuperSpeedStreamInEndpoint(endpoint_number=ep, max_packet_size=mps), aw = address width
+config line `# mps ep aw kind` : SuperSpeedStreamInEndpoint(endpoint_number=ep, max_packet_size=mps), aw = address width
+
+kind 0 (endpoint alone, handshakes_out.ready / done are inputs):
 input  : stream.valid stream.last stream.payload tx.ready ack_received hs.endpoint_number retry_required
-         next_sequence number_of_packets handshakes_out.done ep_reset
+         next_sequence number_of_packets handshakes_out.done ep_reset handshakes_out.ready
 output : stream.ready tx.valid tx.first tx.last tx.payload tx_zlp tx_length tx_sequence_number
-         tx_endpoint_number send_nrdy send_erdy
+         tx_endpoint_number send_nrdy send_erdy handshakes_out.endpoint_number
+
+kind 1 / 2 (closed loop with the TransactionPacketGenerator, directly / through SuperSpeedEndpointMultiplexer):
+input  : as above, but column 9 = header_source.ready and column 11 = generator address
+output : as above ++ generator interface.ready interface.done header_source.valid header dw0 dw1
 -/
+inductive St
+  | alone (c : Config) (s : HsState)
+  | loop (c : SSInLoop.Config) (s : SSInLoop.State)
+
+def epOuts (o : HsOut) : List Nat :=
+  [b2n o.base.sReady, o.base.txValid, b2n o.base.txFirst, b2n o.base.txLast, o.base.txData, b2n o.base.txZlp,
+   o.base.txLength, o.base.txSeq, o.base.txEp, b2n o.base.sendNrdy, b2n o.base.sendErdy, o.hsEp]
+
 def main : IO Unit :=
-  runDriver (σ := Config × State)
-    (fun cfg => let c : Config := ⟨fld cfg 0, fld cfg 1, fld cfg 2⟩; (c, init c))
-    (fun (c, s) i =>
+  runDriver (σ := St)
+    (fun cfg =>
+      let c : Config := ⟨fld cfg 0, fld cfg 1, fld cfg 2⟩
+      if fld cfg 3 == 0 then .alone c (initHs c)
+      else let lc : SSInLoop.Config := ⟨c, fld cfg 3 == 2⟩; .loop lc (SSInLoop.init lc))
+    (fun st i =>
       let inp : In := ⟨fld i 0, n2b (fld i 1), fld i 2, n2b (fld i 3), n2b (fld i 4), fld i 5, n2b (fld i 6),
         fld i 7, fld i 8, n2b (fld i 9), n2b (fld i 10)⟩
-      let (s', o) := step c s inp
-      ((c, s'), [b2n o.sReady, o.txValid, b2n o.txFirst, b2n o.txLast, o.txData, b2n o.txZlp, o.txLength,
-        o.txSeq, o.txEp, b2n o.sendNrdy, b2n o.sendErdy]))
+      match st with
+      | .alone c s =>
+        let (s', o) := stepHs c s ⟨inp, n2b (fld i 11)⟩
+        (.alone c s', epOuts o)
+      | .loop c s =>
+        let (s', o) := SSInLoop.step c s ⟨inp, n2b (fld i 9), fld i 11⟩
+        (.loop c s', epOuts o.ep ++ [b2n o.gen.ifReady, b2n o.gen.done, b2n o.gen.valid, o.gen.header.dw0,
+          o.gen.header.dw1]))
